@@ -116,6 +116,11 @@ func (w *HttpWorker) Process(data []byte, body []byte) (bool, error) {
 		return false, err
 	}
 
+	// the json literal null unmarshals into a nil pointer without an error
+	if httpData == nil {
+		return false, fmt.Errorf("invalid http receiver data %s", data)
+	}
+
 	req, err := http.NewRequest("POST", httpData.Url, bytes.NewReader(body))
 	if err != nil {
 		return false, err
